@@ -2,7 +2,7 @@
 raw token text is never printed for token types whose lexeme contains a reserved character."""
 import re
 
-from .prog import (AnalysisBroken, key, strip, walk, const_value, enum_name, edpe_blocks, block_nodes)
+from .prog import (AnalysisBroken, key, strip, walk, const_value, enum_name, edpe_blocks, block_nodes, tok_dkey, tok_param)
 
 XML_UNITS = {"html.c": "html", "opendocument-content.c": "odf", "opendocument.c": "odf", "opml.c": "opml", "itmz.c": "itmz",
              "epub.c": "html"}
@@ -34,11 +34,25 @@ SINK_REVIEWED = {
         "ANGLE_LEFT never begins a comment (confirmed: `a <!-- x<y --> b` -t fodt drops the comment through PAIR_HTML_COMMENT)",
 }
 
-PASSTHROUGH = {
-    "mmd_start_complete_html": "`html header`, `xhtml header`, css/`html footer` metadata values are documented as raw HTML inserted verbatim",
-    "mmd_end_complete_html": "`html footer` metadata is documented raw HTML",
-    "mmd_export_token_html_raw": "verbatim exporter: escapes per token type (checked by the raw-token rule)",
-}
+# Metadata keys whose values are documented as raw HTML inserted verbatim into the complete document
+RAW_META_KEYS = {"htmlheader", "xhtmlheader", "htmlfooter"}
+
+
+def in_raw_meta_branch(f, n):
+    """Is n inside `if (strcmp(m->key, "<raw key>") == 0)`?"""
+    for a in f.ancestors(n):
+        if a["k"] != "IfStmt" or a["c"][1] is None or not any(x is n for x in walk(a["c"][1])):
+            continue
+        cond = strip(a["c"][0])
+        if cond is None or cond["k"] != "BinaryOperator" or cond["op"] != "==":
+            continue
+        call = strip(cond["c"][0])
+        if call is not None and call["k"] == "CallExpr" and call.get("callee") == "strcmp":
+            for x in call["c"][1:]:
+                sx = strip(x)
+                if sx is not None and sx["k"] == "StringLiteral" and sx.get("s") in RAW_META_KEYS:
+                    return sx["s"]
+    return None
 
 
 def tainted_at(f, name, at, depth=0):
@@ -176,7 +190,7 @@ def is_token_text(a):
         i = strip(s["c"][0])
         if i is not None and i["k"] == "ArraySubscriptExpr":
             k = key(i["c"][1])
-            return bool(re.match(r"^\(?t->start(\+\d+\))?$", k))
+            return bool(re.match(r"^\(?\w+->start(\+\d+\))?$", k))
     return False
 
 
@@ -229,11 +243,9 @@ def r_sink(P, chk, units=None, prop="C08"):
                     if note not in chk.notes:
                         chk.notes.append(note)
                     continue
-                if f.name in PASSTHROUGH:
-                    chk.obligation(rid, desc + " - documented pass-through", True)
-                    note = "R-SINK pass-through %s: %s" % (f.name, PASSTHROUGH[f.name])
-                    if note not in chk.notes:
-                        chk.notes.append(note)
+                rawkey = in_raw_meta_branch(f, c)
+                if rawkey:
+                    chk.obligation(rid, desc + " - `%s` metadata is documented as raw HTML inserted verbatim" % rawkey, True)
                     continue
                 chk.obligation(rid, desc, False)
                 chk.violation(rid, "sink:%s:%s:%s" % (f.base, f.name, key(a)[:40]), f.where(c),
@@ -262,7 +274,7 @@ ENTITY = re.compile(r"&(lt|gt|amp|quot);")
 def _branch(f, v):
     from .rules_critic import _switch_block
     start = _switch_block(f)
-    blocks = edpe_blocks(f, "t->type", v, start=start)
+    blocks = edpe_blocks(f, tok_dkey(f), v, start=start)
     sw = f.nodes.get(f.cfg.blocks[start].term)
     pos = f.cfg.positions()
     inside = {pos[y["i"]][0] for y in walk(sw["c"][1]) if y.get("i") in pos}
@@ -294,7 +306,7 @@ def r_rawtoken(P, chk):
                     a = strip(c["c"][2])
                     if a is not None and a["k"] == "StringLiteral":
                         lits.append(a["s"])
-                    elif cal == "d_string_append_c_array" and key(strip(c["c"][2])) in ("&source[t->start]",):
+                    elif cal == "d_string_append_c_array" and re.match(r"^&\w+\[\w+->start\]$", key(strip(c["c"][2]))):
                         raw = c
             effects[(f.name, name)] = (lits, raw)
             if any(ENTITY.search(l) for l in lits) and raw is None:
